@@ -51,7 +51,9 @@ def new_model(rng, kind):
     nv = int(rng.integers(1, 5))
     nh = nv + int(rng.integers(1, 3))
     na = nv + int(rng.integers(2, 4))
-    am, ph = gen.draw_model(rng, kind, nv, nh, na, scales=[0.3, 1.0, 3.0], phase_aux_bias=False)
+    # "whatever state is saved": every parameter of every network may carry a value, the phase network's auxiliary bias (which
+    # the library itself keeps at zero) included - a hand-set or externally produced model is saved and restored bit for bit
+    am, ph = gen.draw_model(rng, kind, nv, nh, na, scales=[0.3, 1.0, 3.0], phase_aux_bias=bool(rng.integers(0, 2)))
     ud = None
     custom = False
     if kind != "positive" and rng.random() < 0.6:
@@ -220,7 +222,8 @@ def history(case, ctx, rng, tmp):
         others = [(j, full_digest(x["st"])) for j, x in enumerate(models) if j != mi]
         if op == "randomise":
             ctx.lib("reinitialize_parameters", st.reinitialize_parameters, tags=tags)
-            am, ph = gen.draw_model(rng, m["kind"], st.num_visible, st.num_hidden, getattr(st, "num_aux", None) or 1, scales=[0.3, 1.0])
+            am, ph = gen.draw_model(rng, m["kind"], st.num_visible, st.num_hidden, getattr(st, "num_aux", None) or 1, scales=[0.3, 1.0],
+                                    phase_aux_bias=bool(rng.integers(0, 2)))
             gen.set_params(st.rbm_am, am)
             if ph is not None:
                 gen.set_params(st.rbm_ph, ph)
